@@ -500,6 +500,13 @@ def r3(F, R):
                     break
             if c["by"] != "ByValue" and not cls:
                 cls = None
+            if cls is None and cb.path != tb.path:
+                # a nested closure capturing a variable that its enclosing closure *declares* (not one the enclosing closure captured itself):
+                # state local to this worker invocation, i.e. to this chain
+                parent_path = cb.path[:cb.path.rindex("::{closure")]
+                pb = F.bodies.get(parent_path)
+                if pb is not None and c["var"] not in {pc["var"] for pc in pb.captures} and any(l.get("name") == c["var"] for l in pb.locals[pb.arg_count + 1:]):
+                    cls = "variable declared inside the worker (per chain)"
             if cls is None:
                 R.bad("C10-R3", key, site, "capture `%s: %s` (%s) is not in the allowed classes (shared mutable state between chains?)" % (c["var"], c["ty"], c["by"]))
             elif c["by"] != "ByValue" and not c["ty"].startswith("&"):
